@@ -200,7 +200,7 @@ func runC22(c *CaseCtx) {
 func init() {
 	register(&Check{
 		ID: "C22", Level: "exploration", NoLeakMonitor: true,
-		NCases: func(t string) int { return tier(t, 90, 6000) },
+		NCases: func(t string) int { return tier(t, 90, 4000) },
 		Run:    runC22,
 		Rule: "case = (creator index mode, directory state in {never opened, opened and closed, written, written over many segments, merged, crashed (process-crash images of the creator's run)}); each resulting directory is copied and opened in each of the three index modes; " +
 			"oracle: other mode family and committed data present => Open must return an error; whenever Open returns an error the directory (recursive listing + SHA-256 of every file) must be byte-identical to before; same family => Open succeeds and the full observation equals the creator's last one (KV data); distinct by creator configuration+history hash",
